@@ -67,3 +67,9 @@ pub open spec fn opt_max_usize_spec(a: Option<usize>, b: Option<usize>) -> Optio
 }
 #[verifier::external_body]
 pub fn opt_max_usize(a: Option<usize>, b: Option<usize>) -> (r: Option<usize>) ensures r == opt_max_usize_spec(a, b) { unimplemented!() }
+
+// R8: AtomicUsize::compare_exchange(current, new, ..), sequentially
+pub fn cas_usize(a: &mut usize, current: usize, new: usize) -> (r: Result<usize, usize>)
+    ensures *old(a) == current ==> r == Ok::<usize, usize>(current) && *final(a) == new,
+        *old(a) != current ==> r == Err::<usize, usize>(*old(a)) && *final(a) == *old(a)
+{ if *a == current { *a = new; Ok(current) } else { Err(*a) } }
